@@ -21,6 +21,13 @@ and the configuration resolved from FlowIRConcrete(instance, 'default') must equ
 no global/stage variable (transitively) references a variable that a narrower scope redefines (instance() binds the
 references of global and stage variables early, in their own scope).
 
+SESSIONS (several look-ups on ONE FlowIRConcrete): documents with a SIBLING component in the stage of the component
+under test are asked a sequence - instance()/replicate() of a platform (also inject_missing_fields=False / is_primitive /
+fill_in_all), look-ups with the unusual options (inject_missing_fields=False, include_default=False, raw, is_primitive,
+ignore_convert_errors), raw() - followed by the strict look-up (raw and resolved) for three (platform, component) pairs:
+each strict answer is judged by the same predicates and compared with the same models, which read the ORIGINAL
+document; each answer of the sequence must also equal the answer of the same call on a fresh object.
+
 Not covered (never generated): array-index expansion (`[`), the `interpreter` rewrite, memory/qos converters,
 float literals inside strings."""
 import copy
@@ -56,6 +63,9 @@ ASSUMPTIONS = [
     'the configuration resolved through the instance is required to EQUAL the directly resolved one only for '
     'scope-closed cases (no global/stage variable reaches, through references, a variable redefined in a narrower '
     'scope): elsewhere instance() binds early by design and the two legitimately differ',
+    'sessions: the answers of the calls with unusual options (inject_missing_fields=False, include_default=False, '
+    'is_primitive, instance(), raw()) are not modelled: they are only required to be the same on a used and on a '
+    'fresh object; the strict look-ups that follow them are compared with the model of the original document',
 ]
 HEADER = 'Require Import V.Lib.JTree V.Conf.Model V.Conf.Rescan V.Conf.Instance.\nOpen Scope string_scope.'
 CHECKER = 'check_case_both'
@@ -842,6 +852,8 @@ def first_defined(layers, path):
 def predicates(ctx, case, oraw, ores, builtin, o_stripped, classes):
     rep = {'platform': case['platform'], 'doc': case['doc'], 'files': case['files'], 'stage': case['stage'],
            'name': case['name'], 'inj': case.get('inj')}
+    if case.get('session'):
+        rep['session'] = case['session']
     ol, vl = expected_layers(case, builtin)
     # ---- C04_no_leak: other platforms / stages do not matter
     if o_stripped is not None and o_stripped != ores:
@@ -1070,6 +1082,205 @@ def _explore(ctx, cases, metamorphic=True):
                      'C04 FlowIRConcrete.instance/replicate (variables of the instance) vs Conf.Instance.inst_vars_pre')
 
 
+# ------------------------------------------------------------------ sessions: several look-ups on ONE FlowIRConcrete
+# The layers are what the package defines, no matter which look-ups the same object served before: one object is asked
+# a SEQUENCE - instance()/replicate() of some platform, look-ups with the unusual options (inject_missing_fields=False,
+# include_default=False, raw, is_primitive, ignore_convert_errors), raw() - and then the strict look-up for several
+# (platform, component) pairs of the stage: other platforms, the SIBLING component of the one asked before.  Every
+# strict answer is judged by the same predicates and compared with the same models as a first look-up on a fresh
+# object (the model reads the ORIGINAL document); every answer of the sequence is also compared with the answer of the
+# same call on a fresh object.
+SESSION_CORPUS = os.path.join(CORPUS, 'sessions')
+PLATS = ['default', 'p', 'q']
+LOOKUP_FLAGS = ('raw', 'include_default', 'is_primitive', 'inject_missing_fields', 'ignore_convert_errors')
+
+
+def gen_sibling(rng, case):
+    """a second component `sib` in the stage of the component under test, with its own definition, variables and
+    overrides (it shares every blueprint and variable layer of the stage with `c`)"""
+    sib = {'name': 'sib', 'stage': case['stage'], 'command': {'executable': 'sib-exe'}}
+    dens = rng.choice([0.15, 0.3, 0.5])
+    for path, kind in OPTS:
+        if rng.random() < dens:
+            put(sib, path, gen_value(rng, kind, 'sib', path[-1]))
+        for P in PLATS:
+            if rng.random() < dens * 0.4:
+                put(sib.setdefault('override', {}).setdefault(P, {}), path, gen_value(rng, kind, 'sov' + P[0], path[-1]))
+    for name in VARS:
+        if rng.random() < dens * 0.8:
+            sib.setdefault('variables', {})[name] = gen_var_value(rng, name, 'sibv')
+        for P in PLATS:
+            if rng.random() < dens * 0.3:
+                sib.setdefault('override', {}).setdefault(P, {}).setdefault('variables', {})[name] = \
+                    gen_var_value(rng, name, 'sov' + P[0])
+    return sib
+
+
+def gen_step(rng):
+    r = rng.random()
+    X = rng.choice(PLATS)
+    if r < 0.25:
+        return {'op': 'instance', 'platform': X, 'inject_missing_fields': rng.random() < 0.5,
+                'is_primitive': rng.random() < 0.3, 'fill_in_all': rng.random() < 0.2}
+    if r < 0.35:
+        return {'op': 'replicate', 'platform': X}
+    if r < 0.4:
+        return {'op': 'raw'}
+    step = {'op': 'lookup', 'platform': X, 'name': rng.choice(['c', 'sib', 'c', 'sib', 'other'])}
+    # at least one unusual option; inject_missing_fields=False (no built-in layer underneath: the first blueprint
+    # layer that holds a section is the one the result is built on) is the most frequent one
+    flags = {'raw': rng.random() < 0.4, 'include_default': rng.random() < 0.6, 'is_primitive': rng.random() < 0.3,
+             'inject_missing_fields': rng.random() < 0.5, 'ignore_convert_errors': rng.random() < 0.2}
+    if not flags['raw'] and flags['include_default'] and not flags['is_primitive'] and flags['inject_missing_fields']:
+        flags['inject_missing_fields'] = False
+    step.update(flags)
+    return step
+
+
+def gen_session(rng):
+    case = gen_case(rng, dens=rng.choice([0.3, 0.3, 0.5]))
+    doc = case['doc']
+    doc['components'].append(gen_sibling(rng, case))
+    doc['components'].sort(key=lambda c: c['stage'])
+    steps = [gen_step(rng) for _ in range(rng.choice([1, 1, 2, 2, 3]))]
+    pairs = [(P, n) for P in PLATS for n in ('c', 'sib')]
+    rng.shuffle(pairs)
+    case['session'] = {'active': rng.choice(PLATS), 'steps': steps, 'questions': [list(x) for x in pairs[:3]]}
+    return case
+
+
+def session_corpus():
+    out = []
+    for p in sorted(glob.glob(os.path.join(SESSION_CORPUS, '*.json'))):
+        c = fix_stage_keys(json.load(open(p)))
+        c.setdefault('inj', 'corpus')
+        c.setdefault('files', [])
+        c['corpus'] = os.path.basename(p)
+        out.append(c)
+    return out
+
+
+def do_step(concrete, case, step):
+    """one call of the sequence on the object; canonical outcome"""
+    st = case['stage']
+    try:
+        if step['op'] == 'instance':
+            return ('ok', concrete.instance(platform=step['platform'], ignore_errors=True,
+                                            fill_in_all=step.get('fill_in_all', False),
+                                            is_primitive=step.get('is_primitive', False),
+                                            inject_missing_fields=step.get('inject_missing_fields', True)))
+        if step['op'] == 'replicate':
+            return ('ok', concrete.replicate(platform=step['platform'], ignore_errors=True))
+        if step['op'] == 'raw':
+            return ('ok', concrete.raw())
+        name = step['name']
+        cid = (st, name) if name != 'other' else (1 - st, name)
+        kw = {k: step[k] for k in LOOKUP_FLAGS if k in step}
+        return ('ok', concrete.get_component_configuration(cid, platform=step['platform'], **kw))
+    except Exception as e:
+        return _err_of(e)
+
+
+def strict(concrete, case, P, name, raw, explicit):
+    try:
+        r = concrete.get_component_configuration((case['stage'], name), raw=raw, include_default=True,
+                                                 platform=(P if explicit else None))
+        r.pop('override', None)
+        return ('ok', r)
+    except Exception as e:
+        return _err_of(e)
+
+
+def step_label(step):
+    if step['op'] != 'lookup':
+        return step['op'] + ('' if step.get('inject_missing_fields', True) else '_no_builtin')
+    odd = [k for k in ('raw', 'is_primitive', 'ignore_convert_errors') if step.get(k)]
+    odd += ['no_' + k for k in ('include_default', 'inject_missing_fields') if not step.get(k, True)]
+    return 'lookup[' + ','.join(odd) + ']'
+
+
+def relation(last, P, name):
+    """how a strict question relates to the last call of the sequence before it"""
+    op = last.get('op')
+    if op == 'lookup':
+        if last.get('platform') == P:
+            return 'same' if last.get('name') == name else 'other_component_same_platform'
+        return 'other_platform_same_component' if last.get('name') == name else 'other_platform_and_component'
+    if op in ('instance', 'replicate'):
+        return 'instance_of_same_platform' if last.get('platform') == P else 'instance_of_other_platform'
+    return 'after_raw'
+
+
+def _explore_sessions(ctx, sessions):
+    impl = Impl()
+    terms, kept = [], []
+    try:
+        dflt = impl.dflt()
+        builtin = impl.builtin()
+        for case in sessions:
+            ses = case['session']
+            st = case['stage']
+            names = [c['name'] for c in case['doc']['components'] if c['stage'] == st]
+            try:
+                concrete = impl.concrete(case, active=ses['active'])
+            except Exception:
+                ctx.count('session_object_not_built')
+                continue
+            rep = {'platform': ses['active'], 'doc': case['doc'], 'files': case['files'], 'stage': st,
+                   'name': case['name'], 'inj': case.get('inj'), 'session': ses}
+            stage_bp = sorted(P for P in PLATS if get(case['doc'].get('blueprint', {}), (P, 'stages', st)))
+            ctx.count('session_stage_blueprint_on=' + ('+'.join(stage_bp) or 'none'))
+            for k, step in enumerate(ses['steps']):
+                got = do_step(concrete, case, step)
+                ctx.count('session_step_' + step_label(step))
+                if k == 0:
+                    continue
+                # the same call on an object that has served nothing yet
+                fresh = do_step(impl.concrete(case, active=ses['active']), case, step)
+                if got != fresh:
+                    ctx.fail(rep, 'step %d of the sequence (%s) answers differently on the object that served the '
+                                  'earlier look-ups than on a fresh object of the same document' % (k, step_label(step)),
+                             classes_of(case))
+            last = ses['steps'][-1] if ses['steps'] else {}
+            for P, name in ses['questions']:
+                if name not in names:
+                    continue
+                dcase = {'platform': P, 'stage': st, 'name': name, 'doc': case['doc'], 'files': case['files'],
+                         'inj': case.get('inj'), 'session': ses}
+                if case.get('rescan'):
+                    dcase['rescan'] = True
+                explicit = not (P == ses['active'] and case_hash(dcase) % 2 == 0)
+                oraw = strict(concrete, case, P, name, True, explicit)
+                ores = strict(concrete, case, P, name, False, explicit)
+                predicates(ctx, dcase, oraw, ores, builtin, None, classes_of(case))
+                rel = relation(last, P, name)
+                ctx.count('session_question_vs_last_step=' + rel)
+                ctx.count('session_outcome=' + (ores[0] if ores[0] == 'ok' else ores[1]))
+                ctx.case(['session', ses, P, name, case['doc'], case['files']], rel != 'same' and bool(stage_bp))
+                terms.append(case_term(dflt, dcase, oraw, ores))
+                kept.append((dcase, oraw, ores))
+    finally:
+        impl.close()
+    header = HEADER + '\nDefinition DFLT : jv := %s.' % cjv(dflt)
+    plain = [i for i, (c, _a, _b) in enumerate(kept) if not c.get('rescan')]
+    resc = [i for i, (c, _a, _b) in enumerate(kept) if c.get('rescan')]
+    bad = [plain[j] for j in ctx.model_mismatches(header, [terms[i] for i in plain], CHECKER, chunk=40, name='model_ses')]
+    if resc:
+        bad += [resc[j] for j in ctx.model_mismatches(header, [terms[i] for i in resc], CHECKER_RS, chunk=40,
+                                                      name='model_ses_rs')]
+    bad.sort()
+    for k, i in enumerate(bad):
+        dcase, oraw, ores = kept[i]
+        model = ''
+        if k < 2:
+            model = ctx.model_eval(header, 'run_case (fst %s)' % terms[i])[-1500:]
+        ctx.disagree({'platform': dcase['platform'], 'doc': dcase['doc'], 'files': dcase['files'], 'stage': dcase['stage'],
+                      'name': dcase['name'], 'inj': dcase.get('inj'), 'session': dcase['session']},
+                     {'raw': oraw if oraw[0] != 'ok' else 'ok', 'resolved': ores}, model,
+                     'C04 strict get_component_configuration on an object that served other look-ups before vs '
+                     'Conf.Model.resolve_raw / resolve / Conf.Rescan.resolve_rs on the original document')
+
+
 # ------------------------------------------------------------------ FlowIR.interpolate on its own (re-scanning)
 FRAGS = ['%', '%(', ')s', '(', ')', 's', 'a', 'b', 'c', 'd', 'zz', ' ', '-', 'x', '%(a)s', '%(b)s', '%(c)s', '%(d)s',
          '%(zz)s', '%(flow.x)s', '%(a)', '%%', '%(b', 'a)s', 'c)s', '%(d)s)s']
@@ -1192,7 +1403,7 @@ def run(ctx):
                 'depth 5, one injected fault in ~29% of cases (undefined reference 15%, cycle, incomplete, shape clash, '
                 'bad typed text, dotted name, invalid variable value, 4%: a variable holding % or %( completes a new reference during substitution); plus every define/omit pattern of one option and '
                 'one variable over 8 layers (256 cases) and the corpus; non-trivial = some option or variable is '
-                'defined by >= 2 layers of the selected platform; distinct by (platform, document, files); every case is asked in one of four ways (active platform, explicit platform on an object of another platform, after a primitive resolution, after resolving and then putting one variable definition back through set_platform_global/stage_variable) and ALSO resolved through instance()/replicate() (four entry-point variants, ignore_errors=True) and, for the corpus and 1 case in 6, through ExperimentConfigurationFactory.configurationForExperiment(primitive=False) on a scratch package; plus 500 (thorough 4000) direct calls of FlowIR.interpolate on variables a..d and a string built from fragments of the reference syntax (%, %(, )s, names, complete/incomplete/dotted references)')
+                'defined by >= 2 layers of the selected platform; distinct by (platform, document, files); every case is asked in one of four ways (active platform, explicit platform on an object of another platform, after a primitive resolution, after resolving and then putting one variable definition back through set_platform_global/stage_variable) and ALSO resolved through instance()/replicate() (four entry-point variants, ignore_errors=True) and, for the corpus and 1 case in 6, through ExperimentConfigurationFactory.configurationForExperiment(primitive=False) on a scratch package; plus 500 (thorough 4000) direct calls of FlowIR.interpolate on variables a..d and a string built from fragments of the reference syntax (%, %(, )s, names, complete/incomplete/dotted references); plus 110 (thorough 800) generated SESSIONS and 5 fixed ones on ONE FlowIRConcrete object (document as above plus a sibling component with its own definition/variables/overrides in the stage of the component under test, density 0.3/0.5 so that default, p and q all have stage-level blueprints): 1-3 calls out of instance()/replicate() of a random platform (inject_missing_fields=False 50%, is_primitive 30%, fill_in_all 20%), raw(), get_component_configuration of c / sib / the component of the other stage on a random platform with at least one unusual option (raw, include_default=False, is_primitive, inject_missing_fields=False, ignore_convert_errors), then the strict look-up, raw and resolved, for 3 of the 6 (platform, component) pairs; non-trivial = the question differs from the last call in platform or component and the stage has a blueprint')
     rng = ctx.rng
     n = 900 if ctx.tier == 'quick' else 6000
     cases = corpus_cases()
@@ -1207,6 +1418,12 @@ def run(ctx):
         pairs.append(gen_string_case(rng))
     _explore_strings(ctx, pairs)
     ctx.count('interpolate_cases', len(pairs))
+    # (generated last: the documents and strings above are the same as before the sessions were added)
+    sessions = session_corpus()
+    for _ in range(110 if ctx.tier == 'quick' else 800):
+        sessions.append(gen_session(rng))
+    _explore_sessions(ctx, sessions)
+    ctx.count('sessions', len(sessions))
 
 
 def replay(ctx, path):
@@ -1224,7 +1441,10 @@ def replay(ctx, path):
         return 2
     c = fix_stage_keys(c)
     c.setdefault('files', [])
-    _explore(ctx, [c])
+    if c.get('session'):
+        _explore_sessions(ctx, [c])
+    else:
+        _explore(ctx, [c])
     for f in ctx.failures:
         print('REPRODUCED: %s' % f['what'])
     for f in ctx.disagreements:
